@@ -114,6 +114,26 @@ def shadowed_extern_cases():
     return out
 
 
+def mc_name_containment_cases():
+    """multi-client interfaces whose event names contain one another (TryClaim/Claim, ReleaseAll/Release, Use/UseUp), declared in
+    both orders, with either of each pair configured as the claim / release event"""
+    out = []
+    pairs = [('TryClaim', 'Claim'), ('ReleaseAll', 'Release')]
+    for k, (order, pick) in enumerate([(0, 1), (0, 0), (1, 1), (1, 0)]):
+        cl = list(pairs[0]) if order == 0 else list(pairs[0])[::-1]
+        rl = list(pairs[1]) if order == 0 else list(pairs[1])[::-1]
+        events = [[cl[0], 'in', ['Result'], [['n', ['Int'], 'in']]], ['UseUp', 'in', ['void'], []], [cl[1], 'in', ['Result'], [['n', ['Int'], 'in']]],
+                  [rl[0], 'in', ['void'], []], ['Use', 'in', ['Result'], []], [rl[1], 'in', ['void'], []],
+                  ['Done', 'out', ['void'], [['n', ['Int'], 'in']]], ['DoneAll', 'out', ['void'], []]]
+        file = [['extern', ['Int'], 'int'],
+                ['ns', ['My'], [['itf', ['IArb'], [['enum', ['Result'], ['NotOk', 'Ok']]], events],
+                                ['comp', ['Desk'], [['api', ['IArb'], 'provides', False], ['api2', ['IArb'], 'provides', False]]]]]]
+        out.append({'file': file, 'cfg': {'file': 'Desk.dzn', 'enc': ['My', 'Desk'], 'fac': 'create' if k % 2 else 'import',
+                                           'ports': {'p': [['w', 'none'], ['w', 'all']], 'r': [['w', 'none'], ['w', 'all']],
+                                                     'mc': ['api', pairs[0][pick], ['Ok'], pairs[1][pick]]}}})
+    return out
+
+
 def tie_and_plans(cases):
     """(impl outcomes, model outcomes, plans); a case is 'tied' when the implementation's files equal the model's byte for byte.
     Every case is preceded, in the same interpreter, by a build of its sibling."""
